@@ -78,7 +78,7 @@ imp_id (const void *p)
 }
 
 /* sources shared by all threads: created and used once by the main thread before any worker starts */
-#define NSHARED 3
+#define NSHARED 5
 static pixman_image_t *shared_img[NSHARED + 1];
 
 static void
@@ -253,6 +253,7 @@ log_buffer (FILE *o, const img_t *d)
 }
 
 static uint32_t shared_bits[16 * 8];
+static uint32_t shared_bits4[32 * 8], shared_bits5[32 * 8];
 
 static void
 make_shared (int first_use)
@@ -274,6 +275,29 @@ make_shared (int first_use)
     shared_img[2] = pixman_image_create_linear_gradient (&p1, &p2, stops, 2);
     pixman_image_set_repeat (shared_img[2], PIXMAN_REPEAT_REFLECT);
     shared_img[3] = pixman_image_create_solid_fill (&c);
+    {
+	/* 4, 5: bits sources with a client clip that is enabled for sources (two boxes; one box): computing the
+	 * composite region reads their clip region, translated by the request's offsets */
+	pixman_region32_t clip;
+	pixman_box32_t boxes[2] = { { 2, 0, 13, 5 }, { 17, 2, 30, 8 } };
+	for (i = 0; i < 32 * 8; i++)
+	{
+	    shared_bits4[i] = (uint32_t)vrng_next (&rng);
+	    shared_bits5[i] = (uint32_t)vrng_next (&rng);
+	}
+	shared_img[4] = pixman_image_create_bits (PIXMAN_a8r8g8b8, 32, 8, shared_bits4, 128);
+	pixman_region32_init_rects (&clip, boxes, 2);
+	pixman_image_set_clip_region32 (shared_img[4], &clip);
+	pixman_region32_fini (&clip);
+	pixman_image_set_has_client_clip (shared_img[4], 1);
+	pixman_image_set_source_clipping (shared_img[4], 1);
+	shared_img[5] = pixman_image_create_bits (PIXMAN_x8r8g8b8, 32, 8, shared_bits5, 128);
+	pixman_region32_init_rect (&clip, 1, 1, 27, 6);
+	pixman_image_set_clip_region32 (shared_img[5], &clip);
+	pixman_region32_fini (&clip);
+	pixman_image_set_has_client_clip (shared_img[5], 1);
+	pixman_image_set_source_clipping (shared_img[5], 1);
+    }
     if (first_use)
     {
 	/* first use: derived state is computed here, single-threaded */
@@ -284,8 +308,10 @@ make_shared (int first_use)
 	    pixman_image_composite32 (PIXMAN_OP_OVER, shared_img[i], NULL, d, 0, 0, 0, 0, 0, 0, 8, 2);
 	pixman_image_unref (d);
     }
-    fprintf (vt_out, "{\"e\":\"Shared\",\"imgs\":[[%u,%u,%u],[%u,%u,%u],[%u,%u,%u]]}\n",
-	     P3 (shared_img[1]), P3 (shared_img[2]), P3 (shared_img[3]));
+    fprintf (vt_out, "{\"e\":\"Shared\",\"imgs\":[");
+    for (i = 1; i <= NSHARED; i++)
+	fprintf (vt_out, "%s[%u,%u,%u]", i > 1 ? "," : "", P3 (shared_img[i]));
+    fprintf (vt_out, "]}\n");
     fflush (vt_out);
 }
 
@@ -329,7 +355,7 @@ run_request (int idx)
 	int sw = (int)f[k++], sh = (int)f[k++], srep = (int)f[k++], sfilt = (int)f[k++];
 	pixman_fixed_t t[6];
 	pixman_format_code_t mfmt, dfmt;
-	int mw, mh, mrep, mca, dw, dh, sx, sy, mx, my, dx, dy, w, h, sopaque, i, shared, acc;
+	int mw, mh, mrep, mca, dw, dh, sx, sy, mx, my, dx, dy, w, h, sopaque, i, shared, acc, dclip;
 	uint64_t seed;
 	for (i = 0; i < 6; i++)
 	    t[i] = (pixman_fixed_t)f[k++];
@@ -339,6 +365,7 @@ run_request (int idx)
 	w = (int)f[k++]; h = (int)f[k++]; seed = (uint64_t)f[k++]; sopaque = (int)f[k++];
 	shared = (r->nf > k) ? (int)f[k++] : 0;
 	acc = (r->nf > k) ? (int)f[k++] : 0;
+	dclip = (r->nf > k) ? (int)f[k++] : 0;
 	vrng_seed (&rng, seed);
 	memset (&s, 0, sizeof s); memset (&m, 0, sizeof m);
 	if (shared >= 1 && shared <= NSHARED && shared_img[shared])
@@ -385,6 +412,21 @@ run_request (int idx)
 	    pixman_image_set_component_alpha (mask, 1);
 	make_bits (&d, dfmt, dw, dh, (int)vrng_below (&rng, 2), &rng, 0);
 	/* acc: plain read/write accessors on thread-private images (1 destination, 2 mask, 4 private source) */
+	if (dclip)
+	{
+	    /* a destination clip of several boxes (vertical stripes 3 wide every 5 columns, two bands) */
+	    pixman_region32_t clip;
+	    pixman_box32_t bx[40];
+	    int nb = 0, x;
+	    for (x = (dclip & 1); x < dw && nb < 38; x += 5)
+	    {
+		bx[nb].x1 = x; bx[nb].x2 = x + 3 < dw ? x + 3 : dw; bx[nb].y1 = 0; bx[nb].y2 = dh > 1 ? 1 : dh; nb++;
+		if (dh > 1) { bx[nb] = bx[nb - 1]; bx[nb].x1 = x + 1 < dw ? x + 1 : x; bx[nb].x2 = x + 4 < dw ? x + 4 : dw; bx[nb].y1 = 1; bx[nb].y2 = dh; if (bx[nb].x1 < bx[nb].x2) nb++; }
+	    }
+	    pixman_region32_init_rects (&clip, bx, nb);
+	    pixman_image_set_clip_region32 (d.img, &clip);
+	    pixman_region32_fini (&clip);
+	}
 	if (acc & 1) pixman_image_set_accessors (d.img, plain_read, plain_write);
 	if ((acc & 2) && m.img) pixman_image_set_accessors (m.img, plain_read, plain_write);
 	if ((acc & 4) && s.img) pixman_image_set_accessors (s.img, plain_read, plain_write);
